@@ -41,6 +41,14 @@ pub struct ReturnStatement(pub Option<PartV>);
 pub struct Assertion { pub value: PartV }
 pub struct PrintStatement(pub PartV);
 pub struct Reassignment { pub path: PartV, pub value: PartV }
+// a dot chain: `.field` and `.method(args)` links; it depends on the arguments of every method call in it
+pub enum DotLookupOption { Name { name: PartV }, FunctionCall { function_name: PartV, arguments: PartV, assume_self_is_on_top: bool } }
+pub struct DotChain { pub links: Vec<DotLookupOption> }
+pub open spec fn link_deps(l: DotLookupOption) -> Set<Dep> { match l { DotLookupOption::FunctionCall { arguments, .. } => nd(arguments), _ => Set::<Dep>::empty() } }
+pub open spec fn chain_deps(l: Seq<DotLookupOption>) -> Set<Dep> decreases l.len() { if l.len() == 0 { Set::<Dep>::empty() } else { chain_deps(l.drop_last()).union(link_deps(l.last())) } }
+pub proof fn lemma_chain_step(l: Seq<DotLookupOption>, k: int) requires 0 <= k < l.len() ensures chain_deps(l.subrange(0, k + 1)) == chain_deps(l.subrange(0, k)).union(link_deps(l[k])) {
+    assert(l.subrange(0, k + 1).drop_last() =~= l.subrange(0, k));
+}
 pub enum ReassignmentPath { Ident(PartV), ReferenceToSelf(Option<PartV>), Index { lhs: Box<PartV>, index: PartV }, DotLookup { lhs: Box<PartV>, dot_chain: PartV, expected_type: PartV } }
 """
 
@@ -57,8 +65,8 @@ STMTS = [
     ("reassign", "reassignment.rs", "impl Dependencies for Reassignment", "Reassignment", "nd(self.path).union(nd(self.value))", "the place written through AND the value"),
 ]
 PATH = ("path", "reassignment.rs", "impl Dependencies for ReassignmentPath", "ReassignmentPath",
-        "match *self { ReassignmentPath::Ident(i) => nd(i), ReassignmentPath::ReferenceToSelf(_) => Set::<Dep>::empty(), ReassignmentPath::Index { lhs, index } => nd(*lhs).union(nd(index)), ReassignmentPath::DotLookup { lhs, .. } => nd(*lhs) }",
-        "the root variable, and every index expression on the way")
+        "match *self { ReassignmentPath::Ident(i) => nd(i), ReassignmentPath::ReferenceToSelf(_) => Set::<Dep>::empty(), ReassignmentPath::Index { lhs, index } => nd(*lhs).union(nd(index)), ReassignmentPath::DotLookup { lhs, dot_chain, .. } => nd(*lhs).union(nd(dot_chain)) }",
+        "the root variable, every index expression and every method-call argument on the way")
 
 RULES = [
     Rule("R12", "vec ! [ ]", "vempty ( )", why="vec![] (with its set view)"),
@@ -89,6 +97,26 @@ def build(repo):
 }}
 """)
         obls.append(Obl(f"C07.deps.stmt.{oid}", ["C07"], fn=f"{recv}::dependencies", desc=f"{recv}::dependencies: {desc}"))
+    fd = src.fn(AST + "dot_lookup.rs", "dependencies", "impl Dependencies for DotChain")
+    inv = ("invariant $K <= self.links@.len(), result@.to_set() == chain_deps(self.links@.subrange(0, $K as int)) decreases self.links@.len() - $K")
+    bd = translate(fd["body"], RULES + [
+        Rule("R2", "for $x in & self . links { $$body }", lambda b: for_in_vec("d", inv).repl({"x": b["x"], "v": ["self", ".", "links"], "body": [G("proof { lemma_chain_step(self.links@, verif_k_d as int - 1); }"), *b["body"]]}), count=1, why="for over &Vec -> indexed while"),
+    ], log, "DotChain::dependencies")
+    check_closed(bd, "DotChain::dependencies")
+    if bd[-1] != "result":
+        raise Undecided("DotChain::dependencies: final `result` not found")
+    bd = bd[:-1] + [G("proof { assert(self.links@.subrange(0, self.links@.len() as int) =~= self.links@); }"), "result"]
+    parts.append(f"""impl DotChain {{
+    //@ OBL C07.deps.stmt.dot-chain
+    #[verifier::loop_isolation(false)]
+    pub fn dependencies(&self) -> (r: Vec<Dep>)
+        ensures r@.to_set() == chain_deps(self.links@)
+    {{
+{render(bd, 2)}
+    }}
+}}
+""")
+    obls.append(Obl("C07.deps.stmt.dot-chain", ["C07"], fn="DotChain::dependencies", desc="DotChain::dependencies: the arguments of every method call in the chain"))
     gen = header(log, "impl Dependencies for IfStatement / ElseStatement / WhileLoop / NumberLoop / ReturnStatement / Assertion / PrintStatement / Reassignment (/ ReassignmentPath) :: dependencies") + SPEC + "\n".join(parts) + "\n} // verus!\nfn main() {}\n"
     return gen, obls, log
 
